@@ -24,7 +24,8 @@
 (***************************************************************************)
 EXTENDS Naturals, Sequences, FiniteSets, SequencesExt, TLC, Json
 
-CONSTANTS SuiteSet,        \* negotiated suites to explore, e.g. {"1301","1303"}
+CONSTANTS AllowLate, AllowLateAcrossKu,   \* network reordering of application datagrams (within / across a key update)
+          SuiteSet,        \* negotiated suites to explore, e.g. {"1301","1303"}
           OfferFirst,      \* what the ClientHello lists first: {"same","other","grease"}
           Splits,          \* ClientHello CRYPTO splits: set of sequences (orders of piece indices), e.g. {<<1>>,<<2,1>>}
           MaxApp, MaxGen, AllowEarlyGuess, Retries, ZeroRtts, EmitOn
@@ -36,13 +37,13 @@ Class(s) == CASE s = "1301" -> "a" [] s = "1302" -> "b" [] s = "1303" -> "c" [] 
 OtherSuite(s) == IF s = "1301" THEN "1302" ELSE "1301"
 
 VARIABLES suite, first, split, twoPkts, retry, zrtt, coalesce, cfApp,   \* world
-          pc, chSent, retried, sgen, acked, nApp, nextId, dgId, expect,  \* environment / ground truth
+          pc, chSent, retried, sgen, acked, nApp, nextId, dgId, expect, held, sn,  \* environment / ground truth
           initFrom, off, frags, haveCR, suiteSeen, tlsKeys, earlyKeys,   \* QuicSession / QuicTlsSession
           epoch, lastPhase, gens, outbuf,
           kfTaken, hist
 
 world == <<suite, first, split, twoPkts, retry, zrtt, coalesce, cfApp>>
-envv  == <<pc, chSent, retried, sgen, acked, nApp, nextId, dgId, expect>>
+envv  == <<pc, chSent, retried, sgen, acked, nApp, nextId, dgId, expect, held, sn>>
 implv == <<initFrom, off, frags, haveCR, suiteSeen, tlsKeys, earlyKeys, epoch, lastPhase, gens, outbuf>>
 vars  == <<world, envv, implv, kfTaken, hist>>
 
@@ -127,7 +128,8 @@ Send(d, pkts) ==
   /\ Apply(HandleDg(St, pkts, 1, dgId))
   /\ dgId' = dgId + 1
   /\ expect' = IF StreamIds(pkts) # <<>> THEN Append(expect, [dg |-> dgId, d |-> d, ids |-> StreamIds(pkts)]) ELSE expect
-  /\ hist' = Append(hist, [d |-> d, pkts |-> pkts])
+  /\ hist' = Append(hist, [d |-> d, pkts |-> pkts, sn |-> sn])
+  /\ sn' = sn + 1
 
 ChFrames(order) == [i \in 1..Len(order) |-> F("crypto", "CH", order[i])]
 ZPkt(id) == P("Z", "c", 0, <<F("stream", id, 0)>>)
@@ -147,13 +149,13 @@ ClientHelloStep ==
         /\ chSent' = chSent + 1
         /\ nextId' = IF last THEN nextId + Len(z) ELSE nextId
         /\ pc' = IF ~last THEN 1 ELSE IF retry /\ ~retried THEN 2 ELSE 3
-  /\ UNCHANGED <<world, retried, sgen, acked, nApp, kfTaken>>
+  /\ UNCHANGED <<world, retried, sgen, acked, nApp, kfTaken, held>>
 
 RetryStep ==
   /\ pc = 2
   /\ Send("s", <<P("R", "s", 0, <<>>)>>)
   /\ retried' = TRUE /\ chSent' = 0 /\ pc' = 1
-  /\ UNCHANGED <<world, sgen, acked, nApp, nextId, kfTaken>>
+  /\ UNCHANGED <<world, sgen, acked, nApp, nextId, kfTaken, held>>
 
 ServerFlight ==
   /\ pc = 3
@@ -163,19 +165,19 @@ ServerFlight ==
      IN IF coalesce THEN Send("s", <<i, h>>) /\ pc' = 4
         ELSE IF ~shSent THEN Send("s", <<i>>) /\ pc' = 3
         ELSE Send("s", <<h>>) /\ pc' = 4
-  /\ UNCHANGED <<world, chSent, retried, sgen, acked, nApp, nextId, kfTaken>>
+  /\ UNCHANGED <<world, chSent, retried, sgen, acked, nApp, nextId, kfTaken, held>>
 
 ClientFinish ==
   /\ pc = 4
   /\ Send("c", <<P("I", "c", 0, <<F("other", "ack", 0)>>), P("H", "c", 0, <<F("other", "ack", 0), F("crypto", "CF", 1)>>)>>
                \o (IF cfApp THEN <<P("A", "c", 0, <<F("stream", nextId, 0)>>)>> ELSE <<>>))
   /\ nextId' = IF cfApp THEN nextId + 1 ELSE nextId
-  /\ pc' = 5 /\ UNCHANGED <<world, chSent, retried, sgen, acked, nApp, kfTaken>>
+  /\ pc' = 5 /\ UNCHANGED <<world, chSent, retried, sgen, acked, nApp, kfTaken, held>>
 
 ServerDone ==
   /\ pc = 5
   /\ Send("s", <<P("A", "s", 0, <<F("other", "done", 0), F("other", "ncid", 0)>>)>>)
-  /\ pc' = 6 /\ UNCHANGED <<world, chSent, retried, sgen, acked, nApp, nextId, kfTaken>>
+  /\ pc' = 6 /\ UNCHANGED <<world, chSent, retried, sgen, acked, nApp, nextId, kfTaken, held>>
 
 \* application datagram shapes: lists of packets given as lists of frame kinds
 Shapes == { <<<<"stream">>>>, <<<<"ack", "stream", "pad">>>>, <<<<"stream", "ping", "stream">>>>,
@@ -202,7 +204,26 @@ AppDatagram ==
        \* the peer has now seen a packet of generation sgen[d]: it may follow / initiate
        /\ acked' = [acked EXCEPT ![d] = sgen[d]]
   /\ nApp' = nApp + 1
-  /\ UNCHANGED <<world, pc, chSent, retried, sgen, kfTaken>>
+  /\ UNCHANGED <<world, pc, chSent, retried, sgen, kfTaken, held>>
+
+\* the network delays one application datagram: it is sent now (takes its packet number now) but captured later
+HoldDatagram ==
+  /\ AllowLate /\ pc = 6 /\ nApp < MaxApp /\ held = <<>>
+  /\ \E d \in Dir, shape \in { sh \in Shapes : TotalStream(sh, 1) > 0 } :
+       /\ held' = <<[d |-> d, pkts |-> MkPkts(shape, 1, d, nextId), sn |-> sn, gen |-> sgen[d]]>>
+       /\ nextId' = nextId + TotalStream(shape, 1)
+  /\ sn' = sn + 1 /\ nApp' = nApp + 1
+  /\ UNCHANGED <<world, pc, chSent, retried, sgen, acked, dgId, expect, implv, kfTaken, hist>>
+ReleaseHeld ==
+  /\ held # <<>> /\ LET h == held[1] IN
+     /\ (AllowLateAcrossKu \/ sgen[h.d] = h.gen)          \* KF_LateAcrossKeyUpdate: a packet of the old phase after packets of the new one
+     /\ Apply(HandleDg(St, h.pkts, 1, dgId))
+     /\ dgId' = dgId + 1
+     /\ expect' = IF StreamIds(h.pkts) # <<>> THEN Append(expect, [dg |-> dgId, d |-> h.d, ids |-> StreamIds(h.pkts)]) ELSE expect
+     /\ hist' = Append(hist, [d |-> h.d, pkts |-> h.pkts, sn |-> h.sn])
+     /\ acked' = [acked EXCEPT ![h.d] = IF @ > h.gen THEN @ ELSE h.gen]
+  /\ held' = <<>>
+  /\ UNCHANGED <<world, pc, chSent, retried, sgen, nApp, nextId, sn, kfTaken>>
 
 \* key update: initiate (own gen = peer's gen, peer has acknowledged this generation) or follow (peer is ahead)
 KeyUpdate ==
@@ -213,15 +234,15 @@ KeyUpdate ==
           \/ sgen[Other(d)] = sgen[d] /\ acked[d] = sgen[d] /\ acked[Other(d)] = sgen[d]  \* initiate: the acknowledgement of a
                                        \* packet of this generation can only have come in a packet of this generation
        /\ sgen' = [sgen EXCEPT ![d] = @ + 1]
-  /\ UNCHANGED <<world, pc, chSent, retried, acked, nApp, nextId, dgId, expect, implv, kfTaken, hist>>
+  /\ UNCHANGED <<world, pc, chSent, retried, acked, nApp, nextId, dgId, expect, implv, kfTaken, hist, held, sn>>
 
-Next == ClientHelloStep \/ RetryStep \/ ServerFlight \/ ClientFinish \/ ServerDone \/ AppDatagram \/ KeyUpdate
+Next == ClientHelloStep \/ RetryStep \/ ServerFlight \/ ClientFinish \/ ServerDone \/ AppDatagram \/ KeyUpdate \/ HoldDatagram \/ ReleaseHeld
 
 Init == /\ suite \in SuiteSet /\ first \in OfferFirst /\ split \in Splits /\ twoPkts \in BOOLEAN
         /\ retry \in Retries /\ zrtt \in ZeroRtts /\ coalesce \in BOOLEAN /\ cfApp \in BOOLEAN
         /\ (twoPkts => Len(split) >= 2)
         /\ (AllowEarlyGuess \/ ~zrtt \/ first = "same")            \* KF_EarlySuiteGuess excluded unless allowed
-        /\ pc = 1 /\ chSent = 0 /\ retried = FALSE /\ sgen = [d \in Dir |-> 0] /\ acked = [d \in Dir |-> 0] /\ nApp = 0 /\ nextId = 1 /\ dgId = 1 /\ expect = <<>>
+        /\ pc = 1 /\ chSent = 0 /\ retried = FALSE /\ sgen = [d \in Dir |-> 0] /\ acked = [d \in Dir |-> 0] /\ nApp = 0 /\ nextId = 1 /\ dgId = 1 /\ expect = <<>> /\ held = <<>> /\ sn = 1
         /\ initFrom = "none" /\ off = 0 /\ frags = {} /\ haveCR = FALSE /\ suiteSeen = "none" /\ tlsKeys = "none"
         /\ earlyKeys = "none" /\ epoch = [d \in Dir |-> 0] /\ lastPhase = [d \in Dir |-> 0] /\ gens = 0 /\ outbuf = <<>>
         /\ kfTaken = (zrtt /\ first # "same") /\ hist = <<>>
@@ -238,7 +259,7 @@ Group(buf, acc) ==
 Output == Group(outbuf, <<>>)
 
 (* ---------------- contract ---------------- *)
-Done == pc = 6 /\ nApp = MaxApp
+Done == pc = 6 /\ nApp = MaxApp /\ held = <<>>
 \* C02: one output datagram per captured datagram that carried stream data, same direction, data in frame order
 DgramsEqualStreamData == Output = expect
 \* a prefix at every moment (C08)
